@@ -1234,4 +1234,252 @@ theorem exprSem_or {inputs : List String} {ρ : Env} {σ0 : FState} {r : String}
     obtain ⟨d, s3, hf, h4⟩ := run_bind_ok.mp h2
     exact body _ rfl hf h4 (fun hk hdes => orGates_sem hk hdes)
 
+/-! ### `Xor`: accumulate every argument into one qubit -/
+
+def XorSem (inputs : List String) (ρ : Env) (σ0 : FState) (r : String) (as : List BExp) : Prop :=
+  ∀ (d : Nat) {a : Nat} {s s' : CState}, (compileXorArgs as d).run s = .ok (a, s') →
+    Pre inputs ρ σ0 s →
+    (∀ p ∈ s.expq, ∀ c ∈ compSubsList as, (p.1 == c) = false) →
+    inputs.length ≤ d → d < s.qc.numQubits →
+    a = d ∧ Sem σ0 (· = d) (· ∈ compSubsList as) (fun m => s.qc.numQubits ≤ m) s s' ∧
+      cur σ0 s' d = Bool.xor (cur σ0 s d) (evalXor ρ as)
+
+theorem xorSem_nil {inputs : List String} {ρ : Env} {σ0 : FState} {r : String} :
+    XorSem inputs ρ σ0 r [] := by
+  intro d a s s' h _ _ _ _
+  unfold compileXorArgs at h
+  obtain ⟨rfl, rfl⟩ := run_pure_ok.mp h
+  exact ⟨rfl, Sem.refl _, by simp [evalXor]⟩
+
+/-- cache keys after a step that added keys of `a` stay away from the keys of the later siblings -/
+theorem cache_next {K : BExp → Prop} {σ0 : FState} {W : Nat → Prop} {Mk : Nat → Prop} {s s1 : CState}
+    {a : BExp} {as : List BExp}
+    (hcache : ∀ p ∈ s.expq, ∀ c ∈ compSubsList (a :: as), (p.1 == c) = false)
+    (sem1 : Sem σ0 W K Mk s s1) (hK : ∀ c, K c → c ∈ compSubs a)
+    (hdis : ∀ x ∈ compSubs a, ∀ y ∈ compSubsList as, (x == y) = false) :
+    ∀ p ∈ s1.expq, ∀ c ∈ compSubsList as, (p.1 == c) = false := by
+  intro p hp' c hc
+  rcases sem1.keys p hp' with ⟨p0, hp0, e0⟩ | hk
+  · rw [← e0]; exact hcache p0 hp0 c (by simp [compSubsList, hc])
+  · exact hdis _ (hK _ hk) c hc
+
+/-- generic branch of the `compile_xor` loop -/
+theorem xorStep_sem {inputs : List String} {ρ : Env} {σ0 : FState} {r : String} (amb : Amb inputs σ0 r)
+    {a : BExp} {as : List BExp} {d q : Nat} {s s' : CState}
+    (iha : ExprSem inputs ρ σ0 r a) (ihs : XorSem inputs ρ σ0 r as) (hns : isSym a = false)
+    (hdis : ∀ x ∈ compSubs a, ∀ y ∈ compSubsList as, (x == y) = false)
+    (h : StateT.run (do
+          let d' ← compileExpr a (some d) none
+          if d' != d then event "xorRepl"
+          compileXorArgs as d' : M Nat) s = .ok (q, s'))
+    (hp : Pre inputs ρ σ0 s)
+    (hcache : ∀ p ∈ s.expq, ∀ c ∈ compSubsList (a :: as), (p.1 == c) = false)
+    (hd1 : inputs.length ≤ d) (hd2 : d < s.qc.numQubits) :
+    q = d ∧ Sem σ0 (· = d) (· ∈ compSubsList (a :: as)) (fun m => s.qc.numQubits ≤ m) s s' ∧
+      cur σ0 s' d = Bool.xor (cur σ0 s d) (evalXor ρ (a :: as)) := by
+  obtain ⟨d', s1, h1, h2⟩ := run_bind_ok.mp h
+  obtain ⟨st1, _⟩ := exprSpec (B := (· = r)) a (some d) none h1 hp.good
+    (by intro d0 h0; cases h0; exact hd2) (by intro y hy; cases hy)
+  obtain ⟨sem1, _, hv1⟩ := iha (some d) none h1 hp
+    (fun p hp' c hc => hcache p hp' c (by simp [compSubsList, hc]))
+    (by intro d0 h0; cases h0; exact ⟨hd1, hd2⟩) (by intro y hy; cases hy)
+    (by intro hs; rw [hns] at hs; cases hs)
+  obtain ⟨e', hval⟩ := hv1 d rfl
+  subst e'
+  have hp1 : Pre inputs ρ σ0 s1 := hp.next amb st1 sem1 (by intro q hq; cases hq; exact hd1)
+  dsimp only at h2
+  rcases run_ite_ok.mp h2 with ⟨hc, _⟩ | ⟨_, h2⟩
+  · simp at hc
+  · obtain ⟨rfl, sem2, hv2⟩ := ihs d' h2 hp1 (cache_next hcache sem1 (fun _ h => h) hdis) hd1
+      (Nat.lt_of_lt_of_le hd2 sem1.nq)
+    refine ⟨rfl, (sem1.trans' sem2).mono ?_ ?_ ?_, ?_⟩
+    · rintro q _ (h | h)
+      · cases h; rfl
+      · exact h
+    · rintro c (h | h)
+      · simp [compSubsList, show c ∈ compSubs a from h]
+      · simp [compSubsList, show c ∈ compSubsList as from h]
+    · rintro m (h | h)
+      · exact h.1
+      · exact Nat.le_trans sem1.nq h
+    · rw [hv2, hval, Bool.xor_assoc]; rfl
+
+/-- `Not` of a compound argument: accumulate the argument, then `X` -/
+theorem xorNotStep_sem {inputs : List String} {ρ : Env} {σ0 : FState} {r : String} (amb : Amb inputs σ0 r)
+    {inner : BExp} {as : List BExp} {d q : Nat} {s s' : CState}
+    (iha : ExprSem inputs ρ σ0 r inner) (ihs : XorSem inputs ρ σ0 r as) (hns : isSym inner = false)
+    (hdis : ∀ x ∈ compSubs (.not inner), ∀ y ∈ compSubsList as, (x == y) = false)
+    (h : StateT.run (do
+          let d' ← compileExpr inner (some d) none
+          if d' != d then event "xorRepl"
+          xGate d'
+          compileXorArgs as d' : M Nat) s = .ok (q, s'))
+    (hp : Pre inputs ρ σ0 s)
+    (hcache : ∀ p ∈ s.expq, ∀ c ∈ compSubsList (.not inner :: as), (p.1 == c) = false)
+    (hd1 : inputs.length ≤ d) (hd2 : d < s.qc.numQubits) :
+    q = d ∧ Sem σ0 (· = d) (· ∈ compSubsList (.not inner :: as)) (fun m => s.qc.numQubits ≤ m) s s' ∧
+      cur σ0 s' d = Bool.xor (cur σ0 s d) (evalXor ρ (.not inner :: as)) := by
+  obtain ⟨d', s1, h1, h2⟩ := run_bind_ok.mp h
+  obtain ⟨st1, _⟩ := exprSpec (B := (· = r)) inner (some d) none h1 hp.good
+    (by intro d0 h0; cases h0; exact hd2) (by intro y hy; cases hy)
+  obtain ⟨sem1, _, hv1⟩ := iha (some d) none h1 hp
+    (fun p hp' c hc => hcache p hp' c (by simp [compSubsList, compSubs, hc]))
+    (by intro d0 h0; cases h0; exact ⟨hd1, hd2⟩) (by intro y hy; cases hy)
+    (by intro hs; rw [hns] at hs; cases hs)
+  obtain ⟨e', hval⟩ := hv1 d rfl
+  subst e'
+  have hp1 : Pre inputs ρ σ0 s1 := hp.next amb st1 sem1 (by intro q hq; cases hq; exact hd1)
+  dsimp only at h2
+  rcases run_ite_ok.mp h2 with ⟨hc, _⟩ | ⟨_, h2⟩
+  · simp at hc
+  · obtain ⟨u, s2, hx, h3⟩ := run_bind_ok.mp h2
+    have ax := xGate_run hx
+    have semx : Sem σ0 (· = d') NoK NoQ s1 s2 := ax.sem rfl
+    have hd3 : d' < s1.qc.numQubits := Nat.lt_of_lt_of_le hd2 sem1.nq
+    have hp2 : Pre inputs ρ σ0 s2 := hp1.next amb (xGate_ok (B := (· = r)) hx hp1.good hd3) semx
+      (by intro q hq; rw [hq]; exact hd1)
+    have sem12 := sem1.trans' semx
+    obtain ⟨rfl, sem2, hv2⟩ := ihs d' h3 hp2
+      (cache_next hcache sem12 (by
+        rintro c (h | h)
+        · simp [compSubs, show c ∈ compSubs inner from h]
+        · exact h.elim) hdis) hd1
+      (Nat.lt_of_lt_of_le hd2 sem12.nq)
+    refine ⟨rfl, (sem12.trans' sem2).mono ?_ ?_ ?_, ?_⟩
+    · rintro q _ ((h | h) | h)
+      · cases h; rfl
+      · exact h
+      · exact h
+    · rintro c ((h | h) | h)
+      · simp [compSubsList, compSubs, show c ∈ compSubs inner from h]
+      · exact h.elim
+      · simp [compSubsList, show c ∈ compSubsList as from h]
+    · rintro m ((h | h) | h)
+      · exact h.1
+      · exact h.elim
+      · exact Nat.le_trans sem12.nq h
+    · rw [hv2, ax.cur_eq rfl σ0, hval]
+      simp only [List.all_nil, Bool.xor_true, evalXor, BExp.eval]
+      rw [bnot_xor, Bool.xor_assoc]
+
+theorem xorSem_cons {inputs : List String} {ρ : Env} {σ0 : FState} {r : String} (amb : Amb inputs σ0 r)
+    {a : BExp} {as : List BExp} (hov : overInputs inputs a = true)
+    (iha : ExprSem inputs ρ σ0 r a) (ihi : ExprSem inputs ρ σ0 r (stripNot a))
+    (ihs : XorSem inputs ρ σ0 r as)
+    (hdis : ∀ x ∈ compSubs a, ∀ y ∈ compSubsList as, (x == y) = false) :
+    XorSem inputs ρ σ0 r (a :: as) := by
+  intro d q s s' h hp hcache hd1 hd2
+  cases a with
+  | sym n =>
+    unfold compileXorArgs at h
+    obtain ⟨q0, s1, hl, h1⟩ := run_bind_ok.mp h
+    obtain ⟨rfl, hq0, _⟩ := lookup_ok hl hp.good
+    have hn : n ∈ inputs := by simpa [overInputs] using hov
+    obtain ⟨i, hi⟩ := idx_of_mem hn
+    have hb := hp.bind i n hi
+    rw [hq0] at hb
+    have hqi : q0 = i := by simpa using hb
+    subst hqi
+    have hil := (mem_of_getElem?' hi).2
+    rcases run_ite_ok.mp h1 with ⟨hc, _⟩ | ⟨_, h1⟩
+    · have : q0 = d := by simpa using hc
+      omega
+    · obtain ⟨u, s2, hcx, h2⟩ := run_bind_ok.mp h1
+      have ac := cx_run hcx
+      have semc : Sem σ0 (· = d) NoK NoQ s1 s2 := ac.sem rfl
+      have hp2 : Pre inputs ρ σ0 s2 := hp.next amb
+        (cx_ok (B := (· = r)) hcx hp.good (Nat.lt_of_lt_of_le hil hp.nin) hd2) semc
+        (by intro q hq; rw [hq]; exact hd1)
+      obtain ⟨rfl, sem2, hv2⟩ := ihs d h2 hp2
+        (cache_next hcache semc (fun _ h => h.elim) hdis) hd1 (Nat.lt_of_lt_of_le hd2 semc.nq)
+      refine ⟨rfl, (semc.trans' sem2).mono ?_ ?_ ?_, ?_⟩
+      · rintro q _ (h | h) <;> exact h
+      · rintro c (h | h)
+        · exact h.elim
+        · simp [compSubsList, show c ∈ compSubsList as from h]
+      · rintro m (h | h)
+        · exact h.elim
+        · exact Nat.le_trans semc.nq h
+      · rw [hv2, ac.cur_eq rfl σ0]
+        simp only [List.all_cons, List.all_nil, Bool.and_true, evalXor, BExp.eval]
+        rw [hp.vals q0 n hi, Bool.xor_assoc]
+  | not inner =>
+    cases inner with
+    | sym n =>
+      unfold compileXorArgs at h
+      exact xorStep_sem amb iha ihs rfl hdis h hp hcache hd1 hd2
+    | ff => simp [overInputs] at hov
+    | tt => simp [overInputs] at hov
+    | xor l => unfold compileXorArgs at h; exact xorNotStep_sem amb ihi ihs rfl hdis h hp hcache hd1 hd2
+    | not l => unfold compileXorArgs at h; exact xorNotStep_sem amb ihi ihs rfl hdis h hp hcache hd1 hd2
+    | and l => unfold compileXorArgs at h; exact xorNotStep_sem amb ihi ihs rfl hdis h hp hcache hd1 hd2
+    | or l => unfold compileXorArgs at h; exact xorNotStep_sem amb ihi ihs rfl hdis h hp hcache hd1 hd2
+    | ite x y z => simp [overInputs] at hov
+    | imp x y => simp [overInputs] at hov
+  | ff => simp [overInputs] at hov
+  | tt => simp [overInputs] at hov
+  | xor l => unfold compileXorArgs at h; exact xorStep_sem amb iha ihs rfl hdis h hp hcache hd1 hd2
+  | and l => unfold compileXorArgs at h; exact xorStep_sem amb iha ihs rfl hdis h hp hcache hd1 hd2
+  | or l => unfold compileXorArgs at h; exact xorStep_sem amb iha ihs rfl hdis h hp hcache hd1 hd2
+  | ite x y z => simp [overInputs] at hov
+  | imp x y => simp [overInputs] at hov
+
+theorem exprSem_xor {inputs : List String} {ρ : Env} {σ0 : FState} {r : String} (amb : Amb inputs σ0 r)
+    {args : List BExp} (ih : XorSem inputs ρ σ0 r args) : ExprSem inputs ρ σ0 r (.xor args) := by
+  intro dest sym a s s' h hp hcache hd hsym _
+  unfold compileExpr at h
+  dsimp only at h
+  obtain ⟨r0, s1, hget, h1⟩ := run_bind_ok.mp h
+  obtain ⟨rfl, rfl⟩ := expqGet?_miss hget (fun p hp' => hcache p hp' _ (by simp [compSubs]))
+  dsimp only at h1
+  have hsub : ∀ p ∈ s1.expq, ∀ c ∈ compSubsList args, (p.1 == c) = false :=
+    fun p hp' c hc => hcache p hp' c (by simp [compSubs, hc])
+  cases dest with
+  | some d =>
+    simp only [Option.isNone_some, Bool.false_eq_true, ↓reduceIte] at h1
+    obtain ⟨d0, s2, hp0, h2⟩ := run_bind_ok.mp h1
+    obtain ⟨rfl, rfl⟩ := run_pure_ok.mp hp0
+    obtain ⟨d', s3, hx, h3⟩ := run_bind_ok.mp h2
+    obtain ⟨rfl, rfl⟩ := run_pure_ok.mp h3
+    obtain ⟨hd1, hd2⟩ := hd d0 rfl
+    obtain ⟨rfl, sem1, hv⟩ := ih d0 hx hp hsub hd1 hd2
+    refine ⟨sem1.mono ?_ ?_ ?_, fun hn => (by cases hn), fun d' hd' => ?_⟩
+    · rintro q _ h; rw [h]
+    · rintro c h; simp [compSubs, show c ∈ compSubsList args from h]
+    · rintro m h; exact ⟨h, fun hn => by cases hn⟩
+    · cases hd'
+      exact ⟨rfl, by rw [hv]; simp [BExp.eval]⟩
+  | none =>
+    simp only [Option.isNone_none, ↓reduceIte] at h1
+    obtain ⟨d, s2, hf, h2⟩ := run_bind_ok.mp h1
+    obtain ⟨semf, hcf, hdf, hnf⟩ := getFreeAncilla_sem (σ0 := σ0) hf hp.free
+    have hp2 : Pre inputs ρ σ0 s2 := hp.next amb (getFreeAncilla_ok (B := (· = r)) hf hp.good).1 semf
+      (by intro q hq; exact hq.elim)
+    obtain ⟨d', s3, hx, h3⟩ := run_bind_ok.mp h2
+    obtain ⟨u, s4, hset, h4⟩ := run_bind_ok.mp h3
+    obtain ⟨rfl, rfl⟩ := run_pure_ok.mp h4
+    have hd1 : inputs.length ≤ d := by rw [hdf]; exact hp.nin
+    obtain ⟨rfl, sem1, hv⟩ := ih d hx hp2 (by
+      intro p hp' c hc
+      rcases semf.keys p hp' with ⟨p0, hp0, e0⟩ | hk
+      · rw [← e0]; exact hsub p0 hp0 c hc
+      · exact hk.elim) hd1 (by omega)
+    obtain ⟨sem4, hc4⟩ := expqSet_sem (σ0 := σ0) hset
+    have hz : cur σ0 s1 a = false := zero_of_good amb hp.good hp.nin a (by omega)
+    refine ⟨((semf.trans' sem1).trans' sem4).mono ?_ ?_ ?_, fun _ => ⟨Or.inr (by omega), ?_⟩,
+      fun d' hd' => by cases hd'⟩
+    · rintro q hq ((h | h) | h)
+      · exact h.elim
+      · omega
+      · exact h.elim
+    · rintro c ((h | h) | h)
+      · exact h.elim
+      · simp [compSubs, show c ∈ compSubsList args from h]
+      · simp [compSubs, show c = BExp.xor args from h]
+    · rintro m ((h | h) | h)
+      · exact h.elim
+      · exact ⟨by omega, fun _ => by omega⟩
+      · exact h.elim
+    · rw [hc4, hv, hcf, hz]; simp [BExp.eval]
+
 end QV.Compiler
